@@ -696,7 +696,7 @@ theorem envRel_init (env : Env) (henv : EnvLe env env) : EnvRel w [[]] env env :
 theorem simplifyCk_refines (hw : WorldOK w) (fuel c : Nat) (e e' : Expr) (c' : Nat)
     (h : simplifyCk fuel c e = .ok (e', c')) (env : Env) (henv : EnvLe env env) :
     RLe (denLz w e env) (denLz w e' env) :=
-  ((simpCk_sound hw fuel).1 [[]] c e e' c' h).val env env (envRel_init env henv)
+  ((simpCk_sound hw fuel).1 [[]] _ e e' c' h).val env env (envRel_init env henv)
 
 /-- … and to the very same value when the original's value contains no deferred failure. -/
 theorem simplifyCk_preserves (hw : WorldOK w) (fuel c : Nat) (e e' : Expr) (c' : Nat)
@@ -724,6 +724,11 @@ example : EnvLe (Env.empty.upd "ds" (.list [.obj "E" ["met"] [.int 3], .obj "E" 
 /-- the checked simplifier succeeds on a concrete projection (and thousands of generated queries on every run of the
     C02 / C14 / C18 checks, where its output is compared with the implementation's) -/
 example : simplifyCk 9 0 (.sub (.tuple [.name "a", .name "b"]) (.const (.int 0))) = .ok (.name "a", 0) := by
-  simp [simplifyCk, simpCk, simpLCk, stackLookup, frameLookup, bind, Except.bind, pure, Except.pure]
+  have hn : nextArg (.sub (.tuple [.name "a", .name "b"]) (.const (.int 0))) = 0 := by decide +kernel
+  simp [simplifyCk, hn, simpCk, simpLCk, stackLookup, frameLookup, bind, Except.bind, pure, Except.pure]
+
+/-- the outermost visit reserves the names of the form `arg_N` the query already holds: the counter starts past them -/
+example : nextArg (.lam ["x"] (.call (.name "Select") [.attr (.name "x") "jets",
+    .lam ["arg_0"] (.tuple [.attr (.name "arg_0") "pt", .attr (.name "arg_7") "met"])] [] [])) = 8 := by decide +kernel
 
 end Fadl
